@@ -42,6 +42,8 @@ def shards(tier, seed):
     out.append(dict(kind="token", prefix=[], maxlen=1))
     for p in itertools.product(range(len(TOKENS)), repeat=2):
         out.append(dict(kind="token", prefix=list(p), maxlen=b["token_len"]))
+    for part in range(4):
+        out.append(dict(kind="foldcase", part=part, parts=4))
     n = b["random"]
     per = 5000
     for i in range(0, n, per):
@@ -183,6 +185,25 @@ def run_shard(shard, rec):
                     if n_nontriv % 20000 == 1:
                         rec.sample(text)
         rec.count("kind", "token", rec.evaluations)
+    elif kind == "foldcase":
+        # spellings of real tags with characters whose case-folded form is longer than the character itself
+        # (ß -> ss, ligatures -> two letters): the text as written and its folded form differ in length
+        from hedmon.oracle import schema_xml
+        subs = [("ss", "\u00df"), ("fi", "\ufb01"), ("fl", "\ufb02"), ("ff", "\ufb00"), ("st", "\ufb06")]
+        o = schema_xml.load("8.3.0")
+        n_eval = 0
+        for node in o.nodes[shard["part"]::shard["parts"]]:
+            for a, b2 in subs:
+                if a not in node.name.lower():
+                    continue
+                i = node.name.lower().index(a)
+                v = node.name[:i] + b2 + node.name[i + 2:]
+                for text in (v, v + "/x", v + "/3 s", v + "/Zzext/More", f"({v}/x, Red)", f"Blue, ({v}, (Green))",
+                             node.parent.name + "/" + v + "/y" if node.parent else v + "/#"):
+                    check_text(text, rec)
+                    rec.case(text, True)
+                    n_eval += 1
+        rec.count("kind", "foldcase", n_eval)
     else:
         rng = rec.rng
         rng.seed(f"c02-{shard['stream']}-{rec.rng.random()}")
